@@ -324,7 +324,8 @@ async def consumer_tee(prep, run, cut, via_handle, res, fault=None):
     def check(after):
         live = [i for i in range(prep.n) if not done[i]]
         if live:
-            if src_closed_early(src):
+            # (also a source that has reported its end is closed when the last child is done, not before: "exactly when")
+            if src_closed_early(src) or (src.plan.flavour != "agen" and getattr(src, "n_aclose", 0) > 0):
                 problems.append(("tee_closed_source_early", after, live))
         elif src.must_release and not src.released:
             problems.append(("tee_source_not_released", after, live))
